@@ -734,7 +734,7 @@ Definition Irel (a : att) : Prop :=
     (rp = true /\ v = VNull) \/ (goa_viol c a v p = [] <-> spec_viol a v p = []).
 
 Lemma map_ctx_ignreq c a : c_ignreq (map_ctx c a) = c_ignreq c.
-Proof. unfold map_ctx. destruct map_keeps_user_ctx; [destruct a|]; reflexivity. Qed.
+Proof. unfold map_ctx. destruct map_ctx_mode; try destruct a; reflexivity. Qed.
 
 Lemma elem_ctx_ignreq c e : c_ignreq (elem_ctx c e) = c_ignreq c.
 Proof. unfold elem_ctx. destruct (c_ptr c && is_prim e); reflexivity. Qed.
